@@ -1,13 +1,47 @@
 """C05 - command sequences acknowledge every packet once and stop at the final packet."""
+import json
+import os
+import shutil
+
 import seq_common
+import vlib
 
 WHAT = {"P05-cmd-once-first": "the command is not written exactly once before the first read",
         "P05-answer-discipline": "a reply is not answered exactly once before it is handed over and before the next read",
         "P05-order": "replies are not handed over in arrival order",
         "P05-stop-at-final": "something is read or written after the first final reply",
         "P05-delivered-count": "the number of replies handed over is not what the script demands",
-        "P05-bytes-left": "the bytes left on the connection are not exactly those behind the final packet"}
+        "P05-bytes-left": "the bytes left on the connection are not exactly those behind the final packet",
+        "P11-block": "firmware upload: a request was not answered with the requested data block",
+        "P11-block-count": "firmware upload: the number of data blocks written differs from the number of answerable requests"}
 
 
 def run(chk):
     seq_common.run_sequence_check(chk, "P05", WHAT)
+    # "... or with the requested data block during a firmware upload": the answers of the upload are data blocks, and an answer
+    # that is not the requested block is not an answer to that packet. C11 decides the content in depth; here a sample of the
+    # same traces is judged for the answer itself.
+    wd = vlib.workdir("C05u")
+    binary = vlib.harness_build()
+    n = 400 if chk.tier == "thorough" else 40
+    up = os.path.join(wd, "up")
+    os.makedirs(up, exist_ok=True)
+    outp = os.path.join(wd, "upload.ndjson")
+    vlib.harness_run(binary, ["upload-run", chk.seed * 1000 + 77, n, 20000, up, outp], timeout=3000)
+    shutil.rmtree(up, ignore_errors=True)
+    r = vlib.tlc("sequence/TraceUpload.tla", workers=1, xmx="6g", env={"UPLOAD_TRACE": outp}, tag="c05up", timeout=3000)
+    if not r.ok:
+        raise vlib.ToolError("TraceUpload failed: " + (r.error_text or r.out[-2000:]))
+    lines = open(outp).read().splitlines()
+    chk.add_tlc("TraceUpload: %d firmware uploads, every answer is the requested block" % len(lines), r)
+    for m in seq_common.FLAG_RE.finditer(r.out):
+        rec = json.loads(lines[int(m.group(1)) - 1])
+        flags = set(json.loads(json.loads(m.group(2))))
+        for f in sorted(flags):
+            if f in ("P11-block", "P11-block-count"):
+                chk.violation("WriteFile:%s" % f, WHAT[f], {"block": rec["block"], "files": [(x["path"], x["id"], x["size"]) for x in rec["files"]],
+                                                           "frames": [x["bytes"][:24] for x in rec["frames"]],
+                                                           "blocks": [{k2: (v[:40] if isinstance(v, list) else v) for k2, v in b.items()} for b in rec["blocks"]][:10]})
+    chk.cov["traces_validated_against_impl"] += len(lines)
+    chk.cov["evaluations"] += len(lines)
+    shutil.rmtree(wd, ignore_errors=True)
